@@ -68,6 +68,7 @@ macro_rules! common_ops {
                     "s": guard(|| fmt_spec(&q, req)),
                     "us": guard(|| fmt_spec(&u, req)),
                     "xs": guard(|| fmt_spec(&x, req)),
+                    "nsym": guard(|| fmt_spec(&u.symbol(), req)),
                     "sym": u.symbol(),
                 }))
             }
